@@ -41,7 +41,8 @@ def _domain_values(kind: str, args: dict) -> list | None:
 class Gen:
     """One generator per program: keeps the per-name kind / categorical choice list fixed."""
 
-    def __init__(self, rng, names: list[str], finite: bool, max_children: int = 4, allow_log: bool = True, fixed_args: bool = False) -> None:
+    def __init__(self, rng, names: list[str], finite: bool, max_children: int = 4, allow_log: bool = True, fixed_args: bool = False, nan_choice: bool = False) -> None:
+        self.nan_choice = nan_choice  # categorical choice lists may contain float('nan') (a legal choice)
         self.fixed_args = fixed_args  # one range per name in every branch (needed by GridSampler programs)
         self._args_cache: dict[str, tuple] = {}
         self.rng = rng
@@ -66,6 +67,8 @@ class Gen:
         kind = self.kind_of.setdefault(name, rng.choice(["cat", "int", "float"]))
         if kind == "cat":
             pool = [["a", "b", "c", "d"], [1, 2, 3], [None, "x", 2.5], [True, False], ["only"]]
+            if self.nan_choice:
+                pool = pool + [[0.5, float("nan"), 2.0], [float("nan"), "x"]] * 4
             ch = self.choices_of.setdefault(name, rng.choice(pool)[: rng.randint(1, self.max_children)] or ["z"])
             return kind, {"choices": list(ch)}
         if kind == "int":
@@ -140,6 +143,8 @@ def suggest(trial: Any, name: str, kind: str, args: dict) -> Any:
 
 
 def _key(v: Any) -> Any:
+    if isinstance(v, float) and v != v:
+        return "<NaN>"   # a NaN choice comes back from a serialising storage as another NaN object
     return round(v, 9) if isinstance(v, float) else v
 
 
@@ -168,7 +173,7 @@ def unit(name: str, kind: str, args: dict, v: Any) -> float:
     """Parameter value mapped to [0,1] (deterministic; used to build smooth objective values)."""
     if kind == "cat":
         ch = list(args["choices"])
-        idx = [i for i, c in enumerate(ch) if c is v or (c == v and type(c) is type(v))]
+        idx = [i for i, c in enumerate(ch) if c is v or (c == v and type(c) is type(v)) or (isinstance(c, float) and isinstance(v, float) and c != c and v != v)]
         return (idx[0] + 0.5) / len(ch) if idx else 0.5
     lo, hi = args["low"], args["high"]
     if args.get("log"):
